@@ -151,7 +151,7 @@ class DequeSpec(SeqSpec):
 
     def coq_case(self, case, obs):
         return "(%s,\n  %s)" % ("[" + "; ".join(op_term(o) for o in case["ops"]) + "]",
-                               "[" + "; ".join(out_term(o) for o in obs["obs"]) + "]")
+                               "([" + "; ".join(out_term(o) for o in obs["obs"]) + "] : list (out Z))")
 
     # ---------------- direct oracles on the implementation's observations
     def oracle(self, case, obs):
